@@ -228,4 +228,24 @@ PLANS = {
             "scheduler, because the unfair schedulers starve other threads for ever then and every time bound is moot",
         ],
     },
+    "C15": {
+        "level": "exploration",
+        "rule": NT_RULE + "; C15: at least one NNG_FLAG_NONBLOCK operation was issued at a quiescent point with a poll "
+                          "descriptor to compare against, or succeeded",
+        "budget_s": {"quick": 50, "thorough": 900},
+        "scenarios": [
+            # workload steers around the behaviours listed in known_findings.json (oracles unchanged),
+            # so that the states behind them stay reachable; avoid is a bit mask, one bit per finding
+            # (AV_* in scenarios/c15_nonblock.cc): clear a bit when the library has been repaired
+            S("c15_nonblock", 6000, 120000, label="avoid_known", avoid=130),
+            # unrestricted workload: every known finding is re-observed here
+            S("c15_nonblock", 1500, 30000),
+            S("c15_conc", 1500, 30000, label="avoid_known", avoid=130),
+            S("c15_conc", 400, 8000),
+        ],
+        "assumptions": ["'library quiescent' is realised by sim_quiesce (no runnable thread, nothing in flight, no timer due within 3 ms)",
+                        "clause (e) 'does the work when it can' is asserted only in states where the message-accounting model is exact "
+                        "(no connectivity change since the last full drain)",
+                        "ws transport is not drawn (tr=3 selects it): closing ws dialers trips transport defects outside C15"],
+    },
 }
